@@ -3,7 +3,7 @@
 
 use crate::e1::{check_cfg, E1Outcome, ProductStats};
 use bridge::{CPat, Cfg};
-use refsem::evidence::{Run, Samples, Tier, Violation};
+use refsem::evidence::{Run, Samples, Tier, ViolAcc, Violation};
 use refsem::families::{g_upto, token_type_variants};
 use refsem::par::par_for;
 use refsem::sem::AtomTables;
@@ -52,8 +52,7 @@ struct Acc {
     pairs03: usize,
     automata02: usize,
     max_blocks: usize,
-    viol: Vec<Violation>,
-    n_viol: usize,
+    viol: ViolAcc,
     samples: Samples,
     capped: usize,
     nontrivial: usize,
@@ -90,9 +89,8 @@ fn absorb(acc: &mut Acc, prop: &str, cfg: &Cfg, family: &str, o: E1Outcome) {
     }
     let list = if prop == "C02" { o.c02 } else { o.c03 };
     for (where_, m) in list {
-        acc.n_viol += 1;
-        if acc.viol.len() < 8 {
-            acc.viol.push(Violation {
+        {
+            acc.viol.add("", || Violation {
                 key: String::new(),
                 summary: format!("{} [{}] {}: {} (witness {:?})", cfg.show(), family, where_, m.what, m.witness),
                 replay: json!({"family": family, "configuration": cfg.to_json(), "where": where_, "witness_string": m.witness, "disagreement": m.what,
@@ -114,12 +112,7 @@ fn merge(into: &mut Acc, from: Acc) {
     into.pairs03 += from.pairs03;
     into.automata02 += from.automata02;
     into.max_blocks = into.max_blocks.max(from.max_blocks);
-    into.n_viol += from.n_viol;
-    for v in from.viol {
-        if into.viol.len() < 16 {
-            into.viol.push(v);
-        }
-    }
+    into.viol.merge(from.viol);
     into.samples.merge(from.samples);
     into.capped += from.capped;
     into.nontrivial += from.nontrivial;
@@ -259,9 +252,8 @@ pub fn run(prop: &'static str, tier: Tier) -> ! {
     }
     families.push(json!({"family": "repository corpora (tests/data/*.json, benches/veryl_modes.json)", "configurations": cor.iter().map(|s| s.0.clone()).collect::<Vec<_>>()}));
 
-    for v in std::mem::take(&mut total.viol) {
-        run.violation(v);
-    }
+    let n_disagreeing = total.viol.total();
+    std::mem::take(&mut total.viol).flush(&mut run);
     let stats = if do02 { &total.s02 } else { &total.s03 };
     let mut cov = Map::new();
     cov.insert("states".into(), json!(stats.states));
@@ -278,7 +270,7 @@ pub fn run(prop: &'static str, tier: Tier) -> ! {
     cov.insert("families".into(), json!(families));
     cov.insert("max_blocks_of_alphabet_partition".into(), json!(total.max_blocks));
     cov.insert("products_capped".into(), json!(total.capped));
-    cov.insert("disagreeing_automata".into(), json!(total.n_viol));
+    cov.insert("disagreeing_automata".into(), json!(n_disagreeing));
     if do02 {
         cov.insert("automata_checked".into(), json!(total.automata02));
     } else {
